@@ -97,13 +97,10 @@ def renderFixed (w d : Nat) (n : Int) : Str := renderFixedS w d (SNum.ofInt n)
 `float` does): signed mantissa and number of decimals. `none` is Python's ValueError. -/
 def parseDec? (s0 : Str) : Option (Int × Nat) :=
   let s := strip s0
-  let (neg, body) := match s with
-    | '-' :: r => (true, r)
-    | '+' :: r => (false, r)
-    | _ => (false, s)
+  let neg := s.head? == some '-'
+  let body := if s.head? == some '-' || s.head? == some '+' then s.drop 1 else s
   let ip := body.takeWhile (· ≠ '.')
-  let rest := body.dropWhile (· ≠ '.')
-  let fp := rest.drop 1
+  let fp := (body.dropWhile (· ≠ '.')).drop 1
   if ip.isEmpty && fp.isEmpty then none else
   match parseNatAux ip 0, parseNatAux fp 0 with
   | some a, some b =>
